@@ -2,6 +2,7 @@ package gen
 
 import (
 	"crypto/ed25519"
+	"crypto/elliptic"
 	"math/big"
 	"math/rand"
 	"strings"
@@ -112,9 +113,18 @@ func genC15(r *rand.Rand, n int, emit func(string)) {
 		}
 		compact := opb.CompactJWS(r, k, hdr, payload)
 		jwk := k.JWK()
+		// what the implementation verifies first, in the same process: the intact JWS under its own key
+		// (anything a verification leaves behind for the next one then shows)
+		prime := M{"jwk": k.JWK(), "compact": compact}
 		label := kt.String() + "/intact"
 		s := strings.Split(compact, ".")
-		switch r.Intn(16) {
+		switch r.Intn(17) {
+		case 16: // the mirrored point (x, p - y): on the curve, another key
+			if kt != opb.Ed25519 {
+				y := new(big.Int).Sub(kt.Curve().Params().P, k.Y)
+				jwk["y"] = opb.B64E(padTo(y, kt.CoordSize()))
+				label = kt.String() + "/key-mirrored-point"
+			}
 		case 0, 1:
 		case 2: // single-bit change in one of the three segments
 			j := r.Intn(3)
@@ -200,7 +210,7 @@ func genC15(r *rand.Rand, n int, emit func(string)) {
 				label = kt.String() + "/key-wrong-width"
 			}
 		}
-		emit(proto.Line("jws", M{"jwk": jwk, "compact": compact, "oracle": oracleForCompact(jwk, compact), "label": label}))
+		emit(proto.Line("jws", M{"jwk": jwk, "compact": compact, "oracle": oracleForCompact(jwk, compact), "label": label, "prime": prime}))
 	}
 }
 
@@ -245,7 +255,21 @@ func genC16parse(r *rand.Rand, n int, emit func(string)) {
 			coord = "x"
 		}
 		raw, _ := opb.B64.DecodeString(jwk[coord].(string))
-		switch r.Intn(10) {
+		switch r.Intn(11) {
+		case 10: // a coordinate that is not reduced: x + p for a point with a small x, at the curve's width
+			if kt != opb.Ed25519 {
+				if x, y, ok := smallXPoint(kt.Curve(), int64(1+r.Intn(200))); ok {
+					if r.Intn(4) != 0 {
+						x = new(big.Int).Add(x, kt.Curve().Params().P)
+					}
+					jwk["x"] = opb.B64E(padTo(x, kt.CoordSize()))
+					jwk["y"] = opb.B64E(padTo(y, kt.CoordSize()))
+					label = kt.String() + "/small-x-point"
+					if x.Cmp(kt.Curve().Params().P) >= 0 {
+						label = kt.String() + "/coordinate-not-reduced"
+					}
+				}
+			}
 		case 0, 1:
 		case 2:
 			jwk[coord] = flipBit(r, jwk[coord].(string))
@@ -274,4 +298,32 @@ func genC16parse(r *rand.Rand, n int, emit func(string)) {
 		}
 		emit(proto.Line("jwkparse", M{"jwk": jwk, "label": label}))
 	}
+}
+
+func padTo(v *big.Int, n int) []byte {
+	b := v.Bytes()
+	if len(b) >= n {
+		return b
+	}
+	return append(make([]byte, n-len(b)), b...)
+}
+
+// smallXPoint finds a point of the curve whose x is the first one >= from that has a y.
+func smallXPoint(c elliptic.Curve, from int64) (*big.Int, *big.Int, bool) {
+	p := c.Params().P
+	a := big.NewInt(-3)
+	if c.Params().Name == "secp256k1" || c.Params().B.Cmp(big.NewInt(7)) == 0 {
+		a = big.NewInt(0)
+	}
+	for xi := from; xi < from+400; xi++ {
+		x := big.NewInt(xi)
+		rhs := new(big.Int).Exp(x, big.NewInt(3), p)
+		rhs.Add(rhs, new(big.Int).Mul(a, x))
+		rhs.Add(rhs, c.Params().B)
+		rhs.Mod(rhs, p)
+		if y := new(big.Int).ModSqrt(rhs, p); y != nil {
+			return x, y, true
+		}
+	}
+	return nil, nil, false
 }
